@@ -37,6 +37,18 @@ def gen_cases(rng, h, n_ops, n_str):
         lines.append('o_comp\t%s %s %d %d %d %d' % (F.op_str(rot, tran, 32), F.op_str(rot2, tran2, 32),
                                                     x[0], x[1], x[2], d))
         lines.append('o_dual\t%s %d %d %d %d %d %d' % (F.op_str(rot, tran, 32), *h3, *x))
+    # documented spellings of one operator: fractions vs decimal fractions, case, '_' as blank, multipliers
+    dec = {'1/2': ['0.5', '.5', '0.50000'], '1/4': ['0.25', '.25'], '3/4': ['0.75', '.750'], '1/3': ['0.3333', '0.33333', '.333'],
+           '2/3': ['0.6667', '0.66667', '.667'], '1/6': ['0.1667', '0.16667'], '5/6': ['0.8333', '0.83333'], '1/8': ['0.125'],
+           '1/12': ['0.0833', '0.08333'], '5/24': ['0.2083', '0.20833'], '4/3': ['1.3333', '1.33333'], '5/4': ['1.25000', '1.25']}
+    for fr, ds in dec.items():
+        for dsp in ds:
+            for tmpl in ('x+%s,y,z', '-y,x-y,z+%s', 'x,%s+y,z', 'x-%s,-y,z', '%s*x,y,z', 'x,y,%s*x+z'):
+                lines.append('o_spell\t%s %s' % (F.hx(tmpl % fr), F.hx(tmpl % dsp)))
+    for a_, b_ in [('x,y,z', 'X,Y,Z'), ('x,y,z', ' x , y , z '), ('-x+1/2,y,z', '-x_+_1/2,y,z'), ('x,y,z+1/2', 'x,y,1/2+z'),
+                   ('2*x,y,z', '+2*x,y,z'), ('x/2,y,z', '1/2*x,y,z'), ('h,k,l', 'H,K,L'), ('a,b,c', 'A,B,C'),
+                   ('x-y,x,z+1/6', 'x-y,x,z+4/24'), ('-x,-y,z', '- x,- y,+ z')]:
+        lines.append('o_spell\t%s %s' % (F.hx(a_), F.hx(b_)))
     for s in F.gen_triplet_strings(rng, n_str):
         nt = rng.choice([32, 32, 32, 120, 104, 97, 88, 113])
         lines.append('parse\t%s %d' % (F.hx(s), nt))
